@@ -33,7 +33,7 @@ def run(ctx):
     fn = F.fn(GO)
     body = fn["hir"]["body"]
     env = hir.Env(fn["hir"], F)
-    sym = hir.Sym(env, F)
+    sym = hir.Sym(env, F, depth=40)
     # A1
     n_arith = 0
     for n, anc in hir.walk(body):
@@ -69,7 +69,7 @@ def run(ctx):
     for n, anc in hir.walk(body):
         if n.get("k") == "SLet" and n["pat"].get("k") == "PBind" and n.get("init") is not None:
             lets.setdefault(n["pat"]["name"], []).append(n)
-    symt = hir.Sym(env, F, through=True)
+    symt = hir.Sym(env, F, depth=40, through=True)
     assign_time = [n for n, _ in hir.walk(body) if n.get("k") == "Assign" and hir.strip(n["l"]).get("to", {}).get("name") == "time"]
     cases = []      # (assign node, guards+conds as [(text, pol)], millis term or None, raw value)
     for a in assign_time:
@@ -80,6 +80,15 @@ def run(ctx):
         except ValueError:
             split = [((), symt(a["r"]))]
         for conds, v in split:
+            # drop impossible combinations (the same scrutinee matched against two different patterns)
+            seen_m = {}
+            consistent = True
+            for c, pol in conds:
+                if isinstance(c, tuple) and c and c[0] == "matches" and pol:
+                    if seen_m.setdefault(c[1], c[2]) != c[2]:
+                        consistent = False
+            if not consistent:
+                continue
             cs = g0 + [(hir.fmt(hir.canon(c), 300), pol) for c, pol in conds if isinstance(c, tuple)]
             ms = None
             if v[0] == "ctor" and str(v[1]).endswith("Some") and v[2][0][0] == "call" and str(v[2][0][1]).endswith("Duration::from_millis"):
@@ -106,7 +115,7 @@ def run(ctx):
             for S_, O_ in (("White", "Black"), ("Black", "White")):
                 for who in ("Game::player(game)", "game.current_player"):
                     if (t == "(%s == Player::%s)" % (who, S_) and pol) or (t == "(%s == Player::%s)" % (who, O_) and not pol) or \
-                            (t == "(%s != Player::%s)" % (who, O_) and pol):
+                            (t == "(%s != Player::%s)" % (who, O_) and pol) or (t == "matches(%s, Player::%s)" % (who, S_) and pol):
                         side = S_
         sides.setdefault(side, []).append(c)
     ctx.check("C13.A3", "budget-selected-by-side-to-move", set(sides) == {"White", "Black"} and all(len(v) == 1 for v in sides.values()), fn=GO,
